@@ -28,7 +28,7 @@ thread's tasks, re-bases every `task(beg,end)` to thread-local row numbers, and 
   `ilu_parallel_solve_literal_eq_serial`   end to end: every interleaving the barrier skeleton permits of the LITERAL
   loops over the LITERAL thread-local tables equals the serial sweep / solve — every pattern (Gauss–Seidel: no
   symmetry hypothesis, level loop of the repaired tree; ILU: strictly triangular factors), every `nt ≥ 1`.
-* `thread_order_admitted`   the hypothesis is satisfiable for every input.
+* `thread_order_is_execution`   the hypothesis is satisfiable for every input.
 * `gs_literal_thread_indep`   hence the result does not depend on the team size or on the interleaving.
 -/
 namespace Amgcl.C09b
@@ -266,7 +266,7 @@ theorem literal_exec_is_exec (sk : Skeleton) (A : CRS K) (hasD : Bool) (Dv : Vec
 
 /-- **the hypothesis of the end-to-end theorems is satisfiable for every input**: running, task after task, the
 threads in thread order is admitted by every skeleton that has the level barrier -/
-theorem thread_order_admitted (sk : Skeleton) (hsk : sk.levelBarrier = true) (Ls : List (Loc K)) :
+theorem thread_order_is_execution (sk : Skeleton) (hsk : sk.levelBarrier = true) (Ls : List (Loc K)) :
     ExecLoc sk Ls (threadOrderG (evTable Ls) (nlevLoc Ls)) := by
   unfold ExecLoc ExecG
   rw [if_pos hsk]
@@ -315,7 +315,7 @@ example (A : CRS Int) (rhs x : Vec Int) :
     gsSweepLoc (gsConstructorLoc false A 5) rhs
       (threadOrderG (evTable (gsConstructorLoc false A 5)) (nlevLoc (gsConstructorLoc false A 5))) x
       = gsSerialSweep false A rhs x :=
-  gs_parallel_sweep_literal_eq_serial false A rhs 5 (by decide) _ (thread_order_admitted _ (by decide) _) x
+  gs_parallel_sweep_literal_eq_serial false A rhs 5 (by decide) _ (thread_order_is_execution _ (by decide) _) x
 
 /-- the same for the level loop of the unpatched tree, structurally symmetric patterns only
 (`C09.gs_asis_any_interleaving_eq_serial_partial` on the literal tables) -/
